@@ -554,3 +554,11 @@ def r5_geometry_order(chk, j):
     ok = len(rot) == 1 and [norm(a) for a in rot[0].args[:2]] == [v2, f"-{v1}"]
     chk.decide(ok, "C12.R5", f"{j.key}:rotation-v2-onto-minus-v1", j.where(), f"rotation_matrix_from_vectors({v2}, -{v1})",
                f"rotation is {[norm(x) for x in rot]}: fragment B must be turned so that its attachment direction opposes A's")
+    # the rotamer scan turns B about the new bond: after the alignment that bond lies along A's attachment vector, so the axis handed to the
+    # scan is that vector (B's own, un-rotated attachment vector points somewhere else: the fragment swings off the bond line)
+    for c in [x for x in walk_no_nested(j.node) if isinstance(x, ast.Call) and (call_name(x) or "").split(".")[-1] == "_optimize_rotation"]:
+        ax = c.args[2] if len(c.args) > 2 else kwarg(c, "ax")
+        axn = norm(env.expand(ax, keep=keep)) if ax is not None else None
+        chk.decide(axn in (v1, f"-{v1}"), "C12.R5", f"{j.key}:rotamer-axis-is-the-new-bond", j.where(c), f"_optimize_rotation(.., {axn}, ..)",
+                   f"the rotamer scan turns fragment B about `{axn}`, not about A's attachment direction `{v1}` along which the new bond lies: with optimize_rotation=True the new bond "
+                   "no longer points along A's former attachment direction")
